@@ -45,6 +45,7 @@ import shutil
 import sqlite3
 
 from sqlalchemy import FetchedValue
+from sqlalchemy import ForeignKey
 from sqlalchemy import Integer
 from sqlalchemy import String
 from sqlalchemy import create_engine
@@ -54,6 +55,7 @@ from sqlalchemy.orm import Session
 from sqlalchemy.orm import attributes
 from sqlalchemy.orm import exc as orm_exc
 from sqlalchemy.orm import mapped_column
+from sqlalchemy.orm import relationship
 from sqlalchemy.pool import NullPool
 
 ID = "C44"
@@ -127,7 +129,83 @@ class VS(Base):  # server-side (trigger) generation
     __mapper_args__ = {"version_id_col": version_id, "version_id_generator": False, "eager_defaults": False}
 
 
-GEN = {"counter": (VC, 1), "uuid": (VU, "u000"), "server": (VS, 1)}
+# joined-table inheritance, version counter on the base table: two and three levels
+class Person2(Base):
+    __tablename__ = "person2"
+    id = mapped_column(Integer, primary_key=True, autoincrement=False)
+    version_id = mapped_column(Integer, nullable=False)
+    name = mapped_column(String)
+    type = mapped_column(String)
+    notes = relationship("Note2")
+    __mapper_args__ = {"version_id_col": version_id, "polymorphic_on": type, "polymorphic_identity": "person"}
+
+
+class Employee2(Person2):
+    __tablename__ = "employee2"
+    id = mapped_column(ForeignKey("person2.id"), primary_key=True)
+    salary = mapped_column(Integer)
+    __mapper_args__ = {"polymorphic_identity": "employee"}
+
+
+class Note2(Base):
+    __tablename__ = "note2"
+    id = mapped_column(Integer, primary_key=True, autoincrement=False)
+    person_id = mapped_column(ForeignKey("person2.id"))
+    text = mapped_column(String)
+
+
+class Person3(Base):
+    __tablename__ = "person3"
+    id = mapped_column(Integer, primary_key=True, autoincrement=False)
+    version_id = mapped_column(Integer, nullable=False)
+    name = mapped_column(String)
+    type = mapped_column(String)
+    notes = relationship("Note3")
+    __mapper_args__ = {"version_id_col": version_id, "polymorphic_on": type, "polymorphic_identity": "person"}
+
+
+class Employee3(Person3):
+    __tablename__ = "employee3"
+    id = mapped_column(ForeignKey("person3.id"), primary_key=True)
+    salary = mapped_column(Integer)
+    __mapper_args__ = {"polymorphic_identity": "employee"}
+
+
+class Manager3(Employee3):
+    __tablename__ = "manager3"
+    id = mapped_column(ForeignKey("employee3.id"), primary_key=True)
+    dept = mapped_column(String)
+    __mapper_args__ = {"polymorphic_identity": "manager"}
+
+
+class Note3(Base):
+    __tablename__ = "note3"
+    id = mapped_column(Integer, primary_key=True, autoincrement=False)
+    person_id = mapped_column(ForeignKey("person3.id"))
+    text = mapped_column(String)
+
+
+GEN = {"counter": (VC, 1), "uuid": (VU, "u000"), "server": (VS, 1), "inh2": (Employee2, 1), "inh3": (Manager3, 1)}
+
+# inheritance worlds: data columns of the joined row, the attribute each write kind touches
+# (b base table, i intermediate table, l leaf table, d `del obj.attr` on a sub-table attribute,
+# r relationship-only change: a child row is added, the versioned row itself is not written)
+INH = {
+    "inh2": dict(
+        cols=("name", "salary"), tables=("note2", "employee2", "person2"), note=Note2,
+        kinds={"b": "name", "l": "salary", "d": "salary", "r": None},
+        select="SELECT p.id, p.version_id, p.name, e.salary FROM person2 p JOIN employee2 e ON e.id = p.id",
+        inserts=("INSERT INTO person2 (id, version_id, name, type) VALUES (?, 1, ?, 'employee')", "INSERT INTO employee2 (id, salary) VALUES (?, ?)"),
+    ),
+    "inh3": dict(
+        cols=("name", "salary", "dept"), tables=("note3", "manager3", "employee3", "person3"), note=Note3,
+        kinds={"b": "name", "i": "salary", "l": "dept", "d": "salary", "r": None},
+        select="SELECT p.id, p.version_id, p.name, e.salary, m.dept FROM person3 p JOIN employee3 e ON e.id = p.id JOIN manager3 m ON m.id = p.id",
+        inserts=("INSERT INTO person3 (id, version_id, name, type) VALUES (?, 1, ?, 'manager')", "INSERT INTO employee3 (id, salary) VALUES (?, ?)",
+                 "INSERT INTO manager3 (id, dept) VALUES (?, ?)"),
+    ),
+}
+INH_INIT = {1: ("n1", 10, "d1"), 2: ("n2", 20, "d2")}
 
 # programs: (expire_on_commit, rows, steps).  steps are *database* steps; in-memory work is glued in:
 #   L load the rows; W set data + flush; C commit; R rollback; D mark deleted + flush
@@ -153,6 +231,22 @@ def shards(tier, seed):
         for mode in ("legacy", "strict"):
             for combo in itertools.combinations_with_replacement(names, 2):
                 out.append((gen, mode, list(combo)))
+    for gen in ("inh2", "inh3"):
+        kinds = sorted(INH[gen]["kinds"])
+        mid = "i" if gen == "inh3" else "l"
+        allp = ["%s:%s" % (p_, k) for p_ in ("P1", "P4", "P5") for k in kinds] + ["P2"]
+        opponents = ["P1:b", "P1:" + mid, "P2", "P4:b"]
+        for mode in ("legacy", "strict"):
+            seen_pairs = set()
+            for x in allp:
+                for y in (opponents if tier == "quick" else allp):
+                    pair = tuple(sorted((x, y)))
+                    if pair not in seen_pairs:
+                        seen_pairs.add(pair)
+                        out.append((gen, mode, list(pair)))
+            if tier == "thorough":
+                for combo in itertools.combinations_with_replacement(["P1:b", "P1:" + mid, "P2", "P4:" + mid], 3):
+                    out.append((gen, mode, list(combo)))
     if tier == "thorough":
         for gen in ("counter", "uuid", "server"):
             for mode in ("legacy", "strict"):
@@ -181,8 +275,12 @@ class World:
         if mode == "strict":
             ca["autocommit"] = False
         self.engine = create_engine("sqlite:///" + self.path, connect_args=ca, poolclass=NullPool)
-        self.table = self.cls.__table__
-        self.table.create(self.engine)
+        self.inh = INH.get(gen)
+        if self.inh:
+            Base.metadata.create_all(self.engine, tables=[Base.metadata.tables[t] for t in self.inh["tables"]])
+        else:
+            self.table = self.cls.__table__
+            self.table.create(self.engine)
         if gen == "server":
             self.admin.execute(
                 "CREATE TRIGGER vs_upd AFTER UPDATE OF data ON vs FOR EACH ROW BEGIN "
@@ -192,11 +290,24 @@ class World:
 
     def reset(self):
         _TOK[0] = 0
+        if self.inh:
+            for t in self.inh["tables"]:
+                self.admin.execute("DELETE FROM %s" % t)
+            n = len(self.inh["cols"])
+            for r, data in INH_INIT.items():
+                for stmt, val in zip(self.inh["inserts"], data[:n]):
+                    self.admin.execute(stmt, (r, val))
+            return
         t = self.table.name
         self.admin.execute("DELETE FROM %s" % t)
         self.admin.execute("INSERT INTO %s (id, version_id, data) VALUES (1, ?, 'init1'), (2, ?, 'init2')" % t, (self.v0, self.v0))
 
+    def init_data(self, r):
+        return INH_INIT[r][: len(self.inh["cols"])] if self.inh else "init%d" % r
+
     def committed(self):
+        if self.inh:
+            return {r[0]: (r[1], tuple(r[2:])) for r in self.observer.execute(self.inh["select"])}
         return {r[0]: (r[1], r[2]) for r in self.observer.execute("SELECT id, version_id, data FROM %s" % self.table.name)}
 
     def close(self):
@@ -211,7 +322,9 @@ MISSING = "<unloaded>"
 
 class Actor:
     def __init__(self, world, idx, progname):
-        eoc, rows, steps = PROGRAMS[progname]
+        base, _, wkind = progname.partition(":")
+        eoc, rows, steps = PROGRAMS[base]
+        steps = [c + wkind if c == "W" else c for c in steps]  # "P1:i" = P1 whose write touches the intermediate table
         self.idx, self.prog, self.rows, self.steps = idx, progname, rows, steps
         self.sess = Session(world.engine, expire_on_commit=eoc)
         self.pc = 0
@@ -259,10 +372,11 @@ def execute(world, prognames, choices, rec=None):
             pick = choices[step] if step < len(choices) else enabled[0]
             assert pick in enabled, (pick, enabled, choices)
             a = actors[pick]
-            op = a.steps[a.pc]
+            optok = a.steps[a.pc]
+            op, wkind = optok[0], optok[1:]
             a.pc += 1
             before = world.committed()
-            label = "s%d.%s" % (a.idx, op)
+            label = "s%d.%s" % (a.idx, optok)
             exc = None
             held = {r: a.held(r) for r in a.rows}
             try:
@@ -271,6 +385,24 @@ def execute(world, prognames, choices, rec=None):
                         a.objs[r] = a.sess.get(world.cls, r)
                     if any(o is None for o in a.objs.values()):
                         a.status = "gone"
+                elif op == "W" and world.inh:
+                    a.nwrites += 1
+                    attr = world.inh["kinds"][wkind]
+                    newdata = {}
+                    for r in a.rows:
+                        o = a.objs[r]
+                        if wkind == "r":
+                            o.notes.append(world.inh["note"](id=1000 + 100 * a.idx + 10 * a.nwrites + r, text="n"))
+                            newdata[r] = None  # the versioned row itself is not written
+                        elif wkind == "d":
+                            was_null = attributes.instance_state(o).dict.get(attr, MISSING) is None
+                            delattr(o, attr)
+                            newdata[r] = None if was_null else (attr, None)  # deleting a NULL attribute is no change at all
+                        else:
+                            val = 1000 + 100 * a.idx + a.nwrites if attr == "salary" else "s%d-w%d-r%d" % (a.idx, a.nwrites, r)
+                            setattr(o, attr, val)
+                            newdata[r] = (attr, val)
+                    a.sess.flush()
                 elif op == "W":
                     a.nwrites += 1
                     newdata = {r: "s%d-w%d-r%d" % (a.idx, a.nwrites, r) for r in a.rows}
@@ -302,7 +434,13 @@ def execute(world, prognames, choices, rec=None):
             if op in ("W", "D"):
                 current = {r: (before.get(r, (None,))[0] if r in before else None) for r in a.rows}
                 is_current = all(r in before and (held[r] == MISSING or held[r] == before[r][0]) for r in a.rows)
-                if exc is None:
+                rel_only = op == "W" and world.inh is not None and all(newdata.get(r) is None for r in a.rows)
+                if exc is None and rel_only and all(a.held(r) == held[r] for r in a.rows):
+                    # relationship-only change that left the versioned row alone: nothing of it can be overwritten,
+                    # the version stays; the commit must then leave the row as it is
+                    stats["flush_ok"] += 1
+                    a.pending = {r: ("rel",) for r in a.rows}
+                elif exc is None:
                     stats["flush_ok"] += 1
                     if not is_current:
                         bad("lost-update", "%s succeeded although the session held version(s) %r while the committed version(s) were %r "
@@ -343,10 +481,19 @@ def execute(world, prognames, choices, rec=None):
                     stats["commits_with_write"] += 1
                     expect = dict(before)
                     for r, w in a.pending.items():
+                        if w[0] == "rel":
+                            continue
                         if w[0] == "del":
                             expect.pop(r, None)
                         else:
-                            expect[r] = (w[1], w[2])
+                            data = w[2]
+                            if world.inh and r in before:
+                                cur = list(before[r][1])
+                                if data is not None:
+                                    cur[world.inh["cols"].index(data[0])] = data[1]
+                                data = tuple(cur)
+                                w = ("upd", w[1], data)
+                            expect[r] = (w[1], data)
                             committed_updates[r] += 1
                         last_committer[r] = (a.idx, w)
                         writers[r].add(a.idx)
@@ -394,7 +541,7 @@ def execute(world, prognames, choices, rec=None):
                         bad("final-row", "row %d: last committer deleted it, final %r" % (r, final[r]))
                 elif final.get(r) != (w[1], w[2]):
                     bad("final-row", "row %d: final %r, last successful committer wrote %r" % (r, final.get(r), (w[1], w[2])))
-            elif final.get(r) != (world.v0, "init%d" % r):
+            elif final.get(r) != (world.v0, world.init_data(r)):
                 bad("final-row", "row %d changed to %r though no session committed a write" % (r, final.get(r)))
             if len(writers[r]) > 1:
                 stats["both_committed"] = True
